@@ -148,8 +148,29 @@ class Machine:
                 return ad["variants"][vix]["name"]
         return str(vix)
 
+    def plain_record(self, fr, t):
+        """a local struct without any impl (no derive, no trait, no method of its own) stands in for a tuple: its fields are named by
+        position, so that `(a, b)` and `Pair { first: a, second: b }` give the same names"""
+        cache = self.__dict__.setdefault("_plain_records", {})
+        path = t["path"]
+        if path not in cache:
+            ad = self.adt(fr, t)
+            plain = bool(ad) and ad.get("kind") == "struct" and ad.get("local") is True
+            if plain:
+                for cr in self.P.facts.crates if hasattr(self.P.facts, "crates") else [fr.crate]:
+                    for im in cr.impls:
+                        st = cr.types[im["self"]]
+                        if st.get("k") == "adt" and st.get("path") == path:
+                            plain = False
+                    if any(k.startswith(path + "::") for k in cr.bodies):
+                        plain = False
+            cache[path] = plain
+        return cache[path]
+
     def field_name(self, fr, t, vix, fi):
         if t["k"] == "adt":
+            if self.plain_record(fr, t):
+                return str(fi)
             ad = self.adt(fr, t)
             if ad:
                 try:
@@ -850,6 +871,11 @@ class Machine:
         body = self.P.body[key]
         cr = self.P.crate_of[key]
         out = []
+        if names is None:
+            import canon_params
+            frozen = canon_params.CANON.get(key)
+            if frozen and len(frozen) == body["arg_count"]:
+                names = frozen
         for i in range(1, body["arg_count"] + 1):
             l = body["locals"][i]
             nm = (names[i - 1] if names and i - 1 < len(names) and names[i - 1] else None) or l["name"] or ("arg%d" % i)
@@ -1084,6 +1110,14 @@ class Machine:
             r = self.call_map(st, fr, t, args, rp)
             if r is not None:
                 return r
+        if rp in ("std::option::Option::<&T>::cloned", "std::option::Option::<&T>::copied") and len(args) == 1:
+            r = self.call_cloned(st, fr, t, args)
+            if r is not None:
+                return r
+        if rp == "std::option::Option::<T>::or_else" and len(args) == 2:
+            r = self.call_or_else(st, fr, t, args)
+            if r is not None:
+                return r
         if rp in ("std::cmp::impls::<impl std::cmp::PartialEq<&B> for &A>::eq", "std::cmp::impls::<impl std::cmp::PartialEq<&B> for &A>::ne") and len(args) == 2:
             # `&a == &b` on references: dispatch to the referent's own PartialEq::eq with one level of reference removed
             g = c.get("rgenerics") or c.get("generics") or []
@@ -1124,6 +1158,55 @@ class Machine:
         # 3. opaque
         r = self.opaque_call(st, fr, t, args, rp, full, site)
         return self.finish_call(st, fr, t, r, site)
+
+    def call_cloned(self, st, fr, t, args):
+        """Option<&T>::cloned / copied: `o.cloned()` is `o.map(|x| x.clone())` - None stays None, Some(&x) becomes Some(x)"""
+        views = self.SM.enum_view(self, st, fr, args[0])
+        rty = self.ret_ty(fr, t)
+        if views is None or rty is None:
+            return None
+        out = []
+        for ass, vix, get in views:
+            s2 = st.copy()
+            if not all(self.assume(s2, e, tr) for e, tr in ass):
+                continue
+            f2 = s2.frames[-1]
+            val = self.SM.mk_enum(self, f2, rty, vix, [] if vix != 1 else [self.SM.deref_arg(self, s2, get(0))])
+            self.write_place(s2, f2, t["dest"], val)
+            f2.bb = t["target"]
+            out.append(s2)
+        return out
+
+    def call_or_else(self, st, fr, t, args):
+        """Option::or_else with a local closure: Some(x) stays as it is, None runs the closure (`a.or_else(|| b)` is the ladder
+        `if let Some(x) = a { Some(x) } else { b }`)"""
+        f = args[1]
+        key = self.P.norm_path(fr.key, f[1]) if f[0] in ('closure', 'fnitem') else None
+        views = self.SM.enum_view(self, st, fr, args[0])
+        if key is None or views is None or not self.should_inline(st, key):
+            return None
+        out = []
+        for ass, vix, get in views:
+            s2 = st.copy()
+            if not all(self.assume(s2, e, tr) for e, tr in ass):
+                continue
+            f2 = s2.frames[-1]
+            if vix == 1:
+                self.write_place(s2, f2, t["dest"], args[0])
+                f2.bb = t["target"]
+                out.append(s2)
+                continue
+            s2.counter += 1
+            nf = Frame("f%d" % s2.counter, key, self.P.crate_of[key])
+            nf.dest = t["dest"]
+            nf.ret_target = t["target"]
+            body = self.P.body[key]
+            cargs = [f] if body["kind"] == "closure" else []
+            for i, a in enumerate(cargs[:body["arg_count"]]):
+                s2.cells[('L', nf.fid, i + 1)] = a
+            s2.frames.append(nf)
+            out.append(s2)
+        return out
 
     def call_map(self, st, fr, t, args, rp):
         """Option::map / Result::map with a local closure or fn item: fork on the variant, run the callee on the payload"""
